@@ -133,3 +133,92 @@ def s_shadow(g, depth):
          "    print([get0(), get1(), %s]);" % v, "    %s = \"inner2\";" % v, "    print([get0(), get1()]);", "}", "print(%s);" % v]
     g.declare(v, "str")
     return L
+
+
+def s_exitmatrix(g, depth):
+    """scope kind x position of the captured variable in the scope x exit path: closures created in a plain block, a
+    loop body, a try block, a catch block or a function body, over the first / a later variable of that scope,
+    which is then left by fall-through, break, continue, return, a direct throw or a throw from a nested call;
+    the closures are read, written and read again afterwards"""
+    r = g.r
+    f = g.fresh("xm")
+    keep = g.fresh("xk")
+    thrower = g.fresh("xt")
+    cont = r.choice(["block", "while", "for", "try", "try", "catch", "fnbody"])
+    exits = {"block": ["fall", "return", "throw", "throwdeep"], "while": ["fall", "break", "continue", "return", "throw"],
+             "for": ["fall", "break", "continue", "return", "throwdeep"], "try": ["fall", "throw", "throwdeep"],
+             "catch": ["fall", "throw"], "fnbody": ["fall", "return", "throw", "throwdeep"]}[cont]
+    if cont == "try" and r.chance(35) and "exc.return_in_try_no_finally" in g.p.avoid:
+        pass
+    pad_outer = r.range(0, 2)
+    pad_inner = r.range(0, 2)
+    L = ["var %s = [];" % keep, "fn %s(n) { if n <= 0 { throw \"deep\"; } return %s(n - 1); }" % (thrower, thrower),
+         "fn %s(mode) {" % f]
+    for i in range(pad_outer):
+        L.append("    var po%d = %d;" % (i, i))
+    ind = "        "
+    if cont == "block":
+        L.append("    {")
+    elif cont == "while":
+        L += ["    var turn = 0;", "    while turn < 2 {", ind + "turn = turn + 1;"]
+    elif cont == "for":
+        L.append("    for turn in 1..3 {")
+    elif cont == "try":
+        L.append("    try {")
+    elif cont == "catch":
+        L.append("    try { throw \"first\"; } catch err {")
+    else:
+        ind = "    "
+    for i in range(pad_inner):
+        L.append(ind + "var pi%d = \"pad%d\";" % (i, i))
+    L += [ind + "var a = \"a\" + String.from(mode);", ind + "var b = mode * 10;",
+          ind + "%s.push(|| [a, b]);" % keep, ind + "%s.push(|| { b = b + 1; a = a + \"!\"; return b; });" % keep]
+    if cont == "catch":
+        L.append(ind + "%s.push(|| err);" % keep)
+    for mi, ex in enumerate(exits):
+        if ex == "fall":
+            continue
+        stmt = {"break": "break;", "continue": "continue;", "return": "return \"returned\";", "throw": "throw \"thrown\";",
+                "throwdeep": "%s(%d);" % (thrower, r.range(0, 3))}[ex]
+        L.append(ind + "if mode == %d { %s }" % (mi, stmt))
+    L.append(ind + "b = b + 100;")
+    if cont == "try":
+        L += ["    } catch e {", "        %s.push(|| e);" % keep, "        print([\"handler\", e]);", "    }"]
+    elif cont != "fnbody":
+        L.append("    }")
+    L += ["    return \"end\";", "}"]
+    g.declare(f, "clfn:1", const=True)
+    g.declare(keep, "clvec", const=True)
+    g.declare(thrower, "clfn:1", const=True)
+    modes = r.sample(list(range(len(exits))), r.range(1, len(exits)))
+    for m in modes:
+        L.append("try { print(%s(%d)); } catch e { print([\"escaped\", e]); }" % (f, m))
+    L.append("for q in 0..2 { for c in %s { print(c()); } }" % keep)
+    return L
+
+
+def capture_limit_programs():
+    """one closure over k variables of two enclosing functions, for k around the one-byte capture limit (256): each
+    captured name must read and write its own variable, or the program must be rejected"""
+    out = []
+    for k in (200, 250, 254, 255, 256, 257, 258, 260):
+        for split in (0, 100, 200):
+            if split >= k:
+                continue
+            outer = "\n".join("    var l%d = %d;" % (i, i) for i in range(split))
+            inner = "\n".join("        var l%d = %d;" % (i, i) for i in range(split, k))
+            uses = " + ".join("l%d" % i for i in range(k))
+            last = k - 1
+            src = ("fn f() {\n%s\n    fn g() {\n%s\n        var sum = || %s;\n        var poke = |v| { l%d = v; return l0; };\n"
+                   "        return [sum, poke, || l%d, || l0];\n    }\n    return g();\n}\n"
+                   "var fs = f();\nprint(fs[0]());\nprint(fs[1](5000));\nprint(fs[2]());\nprint(fs[3]());\nprint(fs[0]());\n"
+                   % (outer, inner, uses, last, last))
+            out.append(("capture-limit/%d/%d" % (k, split), src))
+            # a single closure that both reads all k and writes the last one
+            src2 = ("fn f() {\n%s\n    var both = |v| { l%d = v; return %s; };\n    return [both, || l0, || l%d];\n}\n"
+                    "var fs = f();\nprint(fs[0](7000));\nprint(fs[1]());\nprint(fs[2]());\n"
+                    % ("\n".join("    var l%d = %d;" % (i, i) for i in range(min(k, 250))), min(k, 250) - 1,
+                       " + ".join("l%d" % i for i in range(min(k, 250))), min(k, 250) - 1))
+            if split == 0:
+                out.append(("capture-one-level/%d" % min(k, 250), src2))
+    return out
